@@ -46,7 +46,8 @@ COMPONENTS = {
 PROBES = ["mode_streaming", "mode_pingpong", "mode_sequential", "capacity_1", "capacity_unbounded",
           "close_at_boundary", "parsed_shared_schema", "zero_length_value", "omitted_default",
           "hint_tuple", "hint_dash_type", "float_special", "collection_ge64", "record_depth_ge3",
-          "string_multibyte", "int_extreme", "array_as_tuple"]
+          "string_multibyte", "int_extreme", "array_as_tuple", "profile_huge", "profile_deep", "string_huge",
+          "bytes_huge", "collection_ge8192", "recursion_depth_ge30", "int_magnitude_threshold"]
 
 
 def setup():
@@ -104,7 +105,14 @@ def run_one(ch, ctx):
     node = refavro.resolve(schema)
     mode = ch.weighted([4, 3, 3])
     if mode == 0:
-        dg = gen.DataGen(ch, hints=True, tuples=True, max_len=3)
+        # swarm: size / depth profile per run
+        huge = ch.chance(8)
+        deep = ch.chance(8)
+        dg = gen.DataGen(ch, hints=True, tuples=True, max_len=3, huge=huge, deep=deep)
+        if huge:
+            ctx.probe("profile_huge")
+        if deep:
+            ctx.probe("profile_deep")
     else:
         # pipe runs hand over byte by byte at small capacities: keep values small
         dg = gen.DataGen(ch, hints=True, tuples=True, max_len=3, big_collections=False, long_strings=(63, 64, 65))
